@@ -593,8 +593,11 @@ void ExpressionBuilder::expr_dot(const char* id)
             expr = expression_t::create_dot(expr, *i, position, type_t::create_primitive(Constants::BOOL));
         } else {
             type = type.get_sub(*i).rename(process->templ->uid.get_name() + "::", name.get_name() + "::");
-            for (const auto& [s, e] : process->mapping)
-                type = type.subst(s, e);
+            // the mapping is ordered by symbol address, not by instantiation step: an argument substituted here may mention
+            // a parameter that an outer instantiation step binds, so repeat until every step has been applied
+            for (size_t step = 0; step < process->mapping.size(); ++step)
+                for (const auto& [s, e] : process->mapping)
+                    type = type.subst(s, e);
             expr = expression_t::create_dot(expr, *i, position, type);
         }
     } else if (type.is(PROCESS_VAR)) {
